@@ -189,6 +189,8 @@ def closerKind (kvs : List (String × String)) : CloserKind :=
 /-- bookkeeping the verdicts need about the REAL run so far -/
 structure RealBook where
   c03 : SpecC03.Book := { sleep := 0, half := 0, req := 0 }
+  cc : Int := 0                     -- consecutive-errors opener: failures / timeouts since the last success, transition or rebuild (from REAL events)
+  thr : Int := 0                    -- its ErrorThreshold in force
   ep : SpecC16.Epoch := {}          -- the C16 monitor on the hystrix closer's gate, fed from what the REAL circuit did
   openBefore : Bool := false
   lastNotif : Option Bool := none
@@ -209,6 +211,24 @@ def gateObservation (ck : CloserKind) (cfg : LiveCfg) (openBefore : Bool) (op : 
   if ck == CloserKind.hystrix && openBefore && !cfg.forceOpen && !cfg.disabled && op.run.isSome then
     ro.readings.head?.map fun start => (start, !((runEvents ro.emits).any fun e => e.1 == Kind.shortCircuit))
   else none
+
+/-- the consecutive-errors opener at circuit level, judged on what the REAL circuit reported: after this call's run
+    event the streak is `cc'`; a closed, not-overridden circuit must have opened iff the event was a failure / timeout
+    and the streak reached the threshold -/
+def consecAfter (cc : Int) (emits : List Emit) : Int :=
+  let cc1 := (runEvents emits).foldl (fun c e => if e.1 == Kind.failure || e.1 == Kind.timeout then c + 1 else if e.1 == Kind.success then 0 else c) cc
+  if (notifs emits).isEmpty then cc1 else 0
+def consecVerdict (isConsec : Bool) (cfg : LiveCfg) (openBefore : Bool) (cc thr : Int) (ro : ExecObs) : Option String :=
+  if !isConsec || openBefore || cfg.forceOpen || cfg.forcedClosed || cfg.disabled then none else
+  match runEvents ro.emits with
+  | [e] =>
+    if e.1 == Kind.failure || e.1 == Kind.timeout then
+      let want := decide (cc + 1 ≥ thr)
+      if (notifs ro.emits).contains true != want then
+        some s!"consecutive-errors opener: {cc + 1} failures in a row since the last success / transition / rebuild, threshold {thr}: the circuit {if want then "must open" else "must stay closed"}"
+      else none
+    else if (notifs ro.emits).contains true then some "consecutive-errors opener: opened on a call that is neither a failure nor a timeout" else none
+  | _ => none
 
 def gateVerdict (e : SpecC16.Epoch) (g : Option (Int × Bool)) : Option String :=
   g.bind fun (t, b) => (e.verdict (.check t) (.bool b)).map fun m => "half-open gate: " ++ m
@@ -232,6 +252,7 @@ partial def runCircuitOps (fresh : OState × CState × SpecC03.Book) (ck : Close
       | some op =>
         -- scripted answers exist only where the logic is scripted
         let oScr := match c.opener with | .scripted _ => true | _ => false
+        let isConsec := match c.opener with | .consec _ => true | _ => false
         let cScr := match c.closer with | .scripted _ => true | _ => false
         let a0 := parseAns ((kvGet kvs "ans").getD "0000")
         let ans : Ans := { shouldOpen := a0.shouldOpen && oScr, prevent := a0.prevent && oScr,
@@ -258,14 +279,14 @@ partial def runCircuitOps (fresh : OState × CState × SpecC03.Book) (ck : Close
               (joinVerdicts [("C09", verdictC09 cfgNew rb.lastNotif ro.emits ro.openAfter ro.fanOk),
                 ("C12", (verdictC12 ro.emits ro.readings).orElse fun _ => verdictC12o ro.emits ro.readings),
                 ("C03", (gateVerdict rb.ep (gateObservation ck cfgSpec rb.openBefore op ro)).orElse fun _ => if ck == CloserKind.hystrix then SpecC03.verdictExec rb.c03 cfgNew rb.openBefore ro else none)],
-               { c03 := rb.c03.afterExec rb.openBefore ro, ep := epAfterExec rb.ep (gateObservation ck cfgSpec rb.openBefore op ro) ro.emits, openBefore := ro.openAfter, lastNotif := ((notifs ro.emits).getLast?).orElse fun _ => rb.lastNotif, conc := ro.conc, concFb := ro.concFb })
+               { c03 := rb.c03.afterExec rb.openBefore ro, cc := consecAfter rb.cc ro.emits, thr := rb.thr, ep := epAfterExec rb.ep (gateObservation ck cfgSpec rb.openBefore op ro) ro.emits, openBefore := ro.openAfter, lastNotif := ((notifs ro.emits).getLast?).orElse fun _ => rb.lastNotif, conc := ro.conc, concFb := ro.concFb })
             else
             (joinVerdicts [("C01", verdictC01 cfgSpec adm pv op ro), ("C05", verdictC05 cfgSpec adm pv op ro),
-              ("C06", verdictC06 cfgSpec op ro), ("C02", verdictC02 cfgSpec op ro), ("C07", verdictC07 cfgSpec op ro), ("C08", verdictC08 cfgSpec rb.openBefore pv op ro),
+              ("C06", verdictC06 cfgSpec op ro), ("C02", (verdictC02 cfgSpec op ro).orElse fun _ => consecVerdict isConsec cfgSpec rb.openBefore rb.cc rb.thr ro), ("C07", verdictC07 cfgSpec op ro), ("C08", verdictC08 cfgSpec rb.openBefore pv op ro),
               ("C09", verdictC09 cfgSpec rb.lastNotif ro.emits ro.openAfter ro.fanOk),
               ("C10", verdictC10 cfgSpec rb.openBefore rb.conc rb.concFb op ro), ("C12", (verdictC12 ro.emits ro.readings).orElse fun _ => verdictC12o ro.emits ro.readings),
               ("C03", (gateVerdict rb.ep (gateObservation ck cfgSpec rb.openBefore op ro)).orElse fun _ => if ck == CloserKind.hystrix then SpecC03.verdictExec rb.c03 cfgSpec rb.openBefore ro else none)],
-             { c03 := rb.c03.afterExec rb.openBefore ro, ep := epAfterExec rb.ep (gateObservation ck cfgSpec rb.openBefore op ro) ro.emits, openBefore := ro.openAfter, lastNotif := ((notifs ro.emits).getLast?).orElse fun _ => rb.lastNotif, conc := ro.conc, concFb := ro.concFb })
+             { c03 := rb.c03.afterExec rb.openBefore ro, cc := consecAfter rb.cc ro.emits, thr := rb.thr, ep := epAfterExec rb.ep (gateObservation ck cfgSpec rb.openBefore op ro) ro.emits, openBefore := ro.openAfter, lastNotif := ((notifs ro.emits).getLast?).orElse fun _ => rb.lastNotif, conc := ro.conc, concFb := ro.concFb })
         -- the settings the specification tracks follow the REAL call: they change iff its run function was invoked
         let realRan : Bool := match parseObs op real with | some ro => ro.runCalls != 0 | none => mo.runCalls != 0
         let cfgSpec' := match mid with | some m => if realRan then { m with iei := cfgSpec.iei } else cfgSpec | none => cfgSpec
@@ -288,7 +309,7 @@ partial def runCircuitOps (fresh : OState × CState × SpecC03.Book) (ck : Close
           let c08 : Option String := if cfgSpec.forcedClosed ∧ (notifs ev).contains true then some "ForcedClosed circuit was opened by OpenCircuit" else none
           (joinVerdicts [("C09", (verdictC09 cfgSpec rb.lastNotif ev realOpen fan).orElse fun _ => noop.orElse fun _ => effect),
                          ("C03", if !isOpenOp then effect else none), ("C08", c08), ("C12", verdictC12 ev rd)],
-           { rb with c03 := ev.foldl SpecC03.Book.onEmit rb.c03, ep := epAfterEmits rb.ep ev, openBefore := realOpen, lastNotif := ((notifs ev).getLast?).orElse fun _ => rb.lastNotif })
+           { rb with c03 := ev.foldl SpecC03.Book.onEmit rb.c03, cc := (if (notifs ev).isEmpty then rb.cc else 0), ep := epAfterEmits rb.ep ev, openBefore := realOpen, lastNotif := ((notifs ev).getLast?).orElse fun _ => rb.lastNotif })
         | _, _ => ("-", { rb with openBefore := realOpen })
       runCircuitOps fresh ck c' cfgSpec rb' rest (acc.push (m ++ "\t" ++ spec))
     | some "setcfg" =>
@@ -305,7 +326,7 @@ partial def runCircuitOps (fresh : OState × CState × SpecC03.Book) (ck : Close
       -- SetConfigNotThreadSafe with ANOTHER TimeKeeper (clock B = clock A + 1000 s): the factories are asked again, so
       -- the opener and the closer start afresh; the open/closed flag and the gauges stay
       let c' := { c with clock := c.clock + 1000000000000, opener := fresh.1, closer := fresh.2.1 }
-      runCircuitOps fresh ck c' cfgSpec { rb with c03 := fresh.2.2, ep := { sleep := fresh.2.2.sleep, allow := fresh.2.2.half }, openBefore := realOpen } rest (acc.push (s!"open={fmtBool (isOpenEff c')}" ++ "\t-"))
+      runCircuitOps fresh ck c' cfgSpec { rb with c03 := fresh.2.2, cc := 0, thr := (match fresh.1 with | .consec o => o.threshold | _ => 0), ep := { sleep := fresh.2.2.sleep, allow := fresh.2.2.half }, openBefore := realOpen } rest (acc.push (s!"open={fmtBool (isOpenEff c')}" ++ "\t-"))
     | some "tick" =>
       let c' := { c with clock := c.clock + (toks.getD 1 "0").toInt?.getD 0 }
       runCircuitOps fresh ck c' cfgSpec { rb with openBefore := realOpen } rest (acc.push (s!"open={fmtBool (isOpenEff c')}" ++ "\t-"))
@@ -326,12 +347,12 @@ partial def runCircuitOps (fresh : OState × CState × SpecC03.Book) (ck : Close
         | .hystrix h => .hystrix { h with pct := kvInt kvs "pct" h.pct, vol := kvInt kvs "vol" h.vol }
         | .consec o => .consec { o with threshold := kvInt kvs "thr" o.threshold }
         | o => o }
-      runCircuitOps fresh ck c' cfgSpec { rb with openBefore := realOpen } rest (acc.push (s!"open={fmtBool (isOpenEff c')}" ++ "\t-"))
+      runCircuitOps fresh ck c' cfgSpec { rb with thr := (match c'.opener with | .consec o => o.threshold | _ => rb.thr), openBefore := realOpen } rest (acc.push (s!"open={fmtBool (isOpenEff c')}" ++ "\t-"))
     | _ => runCircuitOps fresh ck c cfgSpec rb rest (acc.push "bad-op\t-")
 
 def suiteCircuit (kvs : List (String × String)) (lines : List (String × String)) : List String :=
   let c := initCirc kvs
   let b3 : SpecC03.Book := { sleep := kvInt kvs "c_sleep" 5000000000, half := kvInt kvs "c_half" 1, req := kvInt kvs "c_req" 1 }
-  (runCircuitOps (c.opener, c.closer, b3) (closerKind kvs) c c.cfg { c03 := b3, ep := { sleep := b3.sleep, allow := b3.half } } lines #[]).toList
+  (runCircuitOps (c.opener, c.closer, b3) (closerKind kvs) c c.cfg { c03 := b3, thr := (match c.opener with | .consec o => o.threshold | _ => 0), ep := { sleep := b3.sleep, allow := b3.half } } lines #[]).toList
 
 end CM
